@@ -160,7 +160,7 @@ def validate(consts, results, workdir, chunk=400):
         events = []
         for ev, info in part:
             events += ev
-        events.append({"ev": "reset", "run": "end", "init": consts.get("InitKind", "base")})
+        events.append({"ev": "reset", "run": "end", "init": consts.get("InitKind", "base"), "storage": "notes"})
         tc = dict(consts, MaxUid=max(64, consts.get("MaxUid", 0)), MaxLines=1000, MaxSteps=1000)
         res, runs = tlc.validate_trace(tc, events, os.path.join(workdir, "trace%d" % (ci // chunk)))
         tlc_results.append(res)
